@@ -92,6 +92,8 @@ inductive St where
   /-- `timer_manager_basic<timer_spec<T>>` for a `w`-bit integral `T` (`sgn`: signed); every tick value of
   the op lines is moved by `off` before it is truncated to `w` bits -/
   | mgrN (w : Nat) (sgn : Bool) (off : Int) (n : Nat) (m : MgrN w) (cur : BitVec w)
+  /-- four `igris::delegate<void, int>` objects -/
+  | dlg (slots : List Dlg)
 
 def summary (n : Nat) (m : Mgr) (cur : Int) : String :=
   let ts := (List.range n).map fun i =>
@@ -268,6 +270,73 @@ def stepMgrN (w : Nat) (sgn : Bool) (off : Int) (n : Nat) (m : MgrN w) (cur : Bi
     some (.mgrN w sgn off n m (wrN w (now + off)), summaryN sgn n m (wrN w (now + off)))
   | _, _ => Option.none
 
+/-- target ids of the delegate harness: plain functions 1..3, member functions 11..13 (objects 1..3),
+external functions 21..23 (objects 0..3), functor `operator()` 31..32 (functor objects 41..42) -/
+def showCall : Call → String
+  | .function fn arg => "F" ++ toString fn ++ "(" ++ toString arg ++ ")"
+  | .method fn _ obj arg =>
+    if fn ≥ 30 then "L" ++ toString (fn - 30) ++ "(" ++ toString arg ++ ")"
+    else "M" ++ toString obj ++ "." ++ toString (fn - 10) ++ "(" ++ toString arg ++ ")"
+  | .ext fn obj arg => "X" ++ toString (fn - 20) ++ "[" ++ toString obj ++ "](" ++ toString arg ++ ")"
+
+def showDlg (d : Dlg) (calls : List Call) : String :=
+  "a=" ++ (if d.armed then "1" else "0") ++ " c=" ++ (if calls.isEmpty then "-" else String.join (calls.map showCall))
+
+def stepDlg (sl : List Dlg) (op : String) (args : List String) : Option (St × String) :=
+  let get (a : Nat) : Dlg := sl.getD a {}
+  let put (a : Nat) (d : Dlg) (calls : List Call) : Option (St × String) := some (.dlg (sl.set a d), showDlg d calls)
+  match op, args with
+  | "dnew", [a, "0"] => do let a ← a.toNat?; put a ({} : Dlg).clean []
+  | "dnew", [a, "f", k] => do let a ← a.toNat?; let k ← k.toNat?; put a (Dlg.ofFunction k) []
+  | "dnew", [a, "m", o, k] => do let a ← a.toNat?; let o ← o.toNat?; let k ← k.toNat?; put a (Dlg.ofMethod (10 + k) 0 o) []
+  | "dnew", [a, "x", k, o] => do let a ← a.toNat?; let k ← k.toNat?; let o ← o.toNat?; put a (Dlg.ofExt (20 + k) o) []
+  | "dnew", [a, "l", k] => do let a ← a.toNat?; let k ← k.toNat?; put a (Dlg.ofMethod (30 + k) 0 (40 + k)) []
+  | "dcopy", [a, b] | "dmove", [a, b] => do let a ← a.toNat?; let b ← b.toNat?; put a (get b).copy.copy []
+  | "dclean", [a] => do let a ← a.toNat?; put a (get a).clean []
+  | "dinv", [a, x] => do
+    let a ← a.toNat?; let x ← x.toInt?
+    put a (get a) ((get a).invoke x ++ (get a).invoke x)
+  | "dreset", [a, x] => do
+    let a ← a.toNat?; let x ← x.toInt?
+    let r := (get a).invokeAndReset x
+    put a r.1 r.2
+  | "deq", [a, b] => do
+    let a ← a.toNat?; let b ← b.toNat?
+    some (.dlg sl, if (get a).eq (get b) then "1" else "0")
+  | "dtim", [a, x, n] => do
+    let a ← a.toNat?; let x ← x.toInt?; let n ← n.toInt?
+    -- `timer<int>(dlg, x)` planned at (0, 1), `exec(n)`: one `execute()` = one `dlg(x)` per callback of the model
+    let fires := (execLoop (fun _ _ => []) n driverFuel 0 (Mgr.init.plan3 0 0 1)).2.1
+    put a (get a) (fires.flatMap fun _ => (get a).invoke x)
+  | _, _ => Option.none
+
+/-- what the models embed: `long` and the stimer fields are `BitVec 64` read as signed (`stW`), `planed` / the
+result of `stimer_check` an `int`, `stimer_finish` an unsigned 64-bit value; the managers run as
+`MgrN 64 true` (and `Mgr` over `Int` for in-range values), `MgrN 32 true`, `MgrN 32 false` / `MgrW`; the "never"
+value of `minimal_interval`; a delegate is three 8-byte words (`Dlg`) -/
+def tyName (w : Nat) (sgn : Bool) : String := toString (w / 8) ++ (if sgn then "s" else "u")
+def mgrTypes (w : Nat) (sgn : Bool) : String :=
+  "time=" ++ tyName w sgn ++ ",diff=" ++ tyName w sgn ++ ",never=" ++
+    toString (if sgn then 2 ^ (w - 1) - 1 else 2 ^ w - 1 : Nat)
+def constsLine : String :=
+  "long=" ++ tyName 64 true ++ " stimer.start=" ++ tyName 64 true ++ " stimer.interval=" ++ tyName 64 true ++
+  " stimer.planed=" ++ tyName 32 true ++ " stimer_finish=" ++ tyName 64 false ++ " stimer_check=" ++ tyName 32 true ++
+  " mgr[" ++ mgrTypes 64 true ++ "] i32[" ++ mgrTypes 32 true ++ "] u32[" ++ mgrTypes 32 false ++ "]" ++
+  " default=int64 delegate=" ++ toString (3 * 8)
+
+/-- the scenario the harness runs before `main()`: plan (0,3) and (0,5), `exec(7)`, `minimal_interval(7)`, `empty()`,
+unplan both, `minimal_interval(7)`, two stimer checks, lock count -/
+def premainLine : String :=
+  let m := (Mgr.init.plan3 0 0 3).plan3 1 0 5
+  let r := execLoop (fun _ _ => []) 7 driverFuel 0 m
+  let m2 := (r.1.unplan 0).unplan 1
+  let t1 : STimerW := stimerPlanN {} (wr64 5250) (wr64 9223372036854775807)
+  let t2 : STimerW := stimerPlanN t1 (wr64 0) (wr64 3)
+  "f=" ++ showFires r.2.1 ++ " m=" ++ toString (r.1.minimalIntervalC 9223372036854775807 7) ++
+    " e=" ++ (if r.1.empty then "1" else "0") ++ " n=" ++ toString (m2.minimalIntervalC 9223372036854775807 7) ++
+    " s=" ++ (if stimerCheckW t1 (wr64 5000) then "1" else "0") ++ (if stimerCheckW t2 (wr64 3) then "1" else "0") ++
+    " l=0"
+
 def stepST (t : STimer) (op : String) (args : List String) : Option (St × String) :=
   match op, args with
   | "sinit", [a, b] => do
@@ -321,6 +390,10 @@ def stepLine (s : St) (line : String) : St × String :=
     match n.toNat? with
     | some n => (.mgrW n MgrW.init 0, "ok")
     | Option.none => bad
+  | ["reset", "C"] => (.none, "ok")
+  | ["consts"] => (s, constsLine)
+  | ["premain"] => (s, premainLine)
+  | ["reset", "D"] => (.dlg (List.replicate 4 ({} : Dlg).clean), "ok")
   | ["reset", "i", n] | ["reset", "I", n] =>
     match n.toNat? with
     | some n => (.mgrN 32 true 0 n MgrN.init 0, "ok")
@@ -345,6 +418,7 @@ def stepLine (s : St) (line : String) : St × String :=
     | .st t => (stepST t op args).getD bad
     | .stW t => (stepSTW t op args).getD bad
     | .mgrN w sgn off n m cur => (stepMgrN w sgn off n m cur op args).getD bad
+    | .dlg sl => (stepDlg sl op args).getD bad
   | _ => bad
 
 def main : IO Unit := run St.none stepLine
